@@ -304,7 +304,7 @@ Proof. intro H. unfold apply. rewrite H. reflexivity. Qed.
 
 (* table facts by computation *)
 Lemma units_wrapped_table :
-  forallb (fun u => unit_known_unwrapped u || unit_is_wrapped hook_table u) hook_units = true.
+  forallb (fun u => unit_is_wrapped hook_table u) hook_units = true.
 Proof. vm_compute. reflexivity. Qed.
 
 Lemma unwrapped_leaves_table : forallb unwrapped_leaf_ok (all_root_leaves hook_table) = true.
